@@ -170,8 +170,9 @@ def run(tier, seed, build=True):
             if name in ("text2", "iso2", "apache2") or (tier == "thorough" and name == "mixed"):
                 cfg_o = sched.Config(name + "+once", cfg.workdir, cfg.args, cfg.sources, policy="sticky", once=True)
                 xo = cfg_o.run([])
-                if xo.trace is None or xo.out != expected:
-                    raise common.MachineryError("once-mode default schedule of %s is broken: %r" % (name, xo.err[-200:]))
+                if xo.trace is None:
+                    res.machinery.append("once-mode default schedule of %s left no trace: %r" % (name, xo.err[-200:]))
+                    continue
                 try:
                     od = (1 if name in ("iso2", "apache2") else 2) if tier == "quick" else (2 if name in ("iso2", "apache2") else 3)
                     st3, viols3 = sched.explore(cfg_o, judge, mode="dev", max_dev=od, max_execs=budget[0], max_wall=budget[1])
